@@ -9,6 +9,15 @@ sys.path.insert(0, VERIF)
 from harness.core import CHECKS  # noqa
 
 TABLE = {
+    "C14": dict(
+        category="exploration", design_ref="3/C14",
+        technique="Hypothesis-generated key sets / kid states with a model oracle; consumed tokens minted by the independent reference under the named key or (negative) under another key of the set carrying the same label; produced tokens judged by the reference with every key of the set",
+        text="~7000 generated cases per quick run: key sets of 1-6 generated keys (several of the needed type, explicit and thumbprint kids), kid absent / known / unknown / empty / "
+             "mislabelled in protected, unprotected or per-recipient position, set passed directly or via callable, JWS and JWE in 3 serializations incl. ECDH-1PU skid with a sender key set; "
+             "the model says which key must be used, InvalidKeyIdError for unknown kids, single-key rule for absent kids, recorded kid for picked keys; export/import of the set must "
+             "preserve the multiset of (kid, public numbers). Exploration over generated cases.",
+        note="keys in a set are pairwise different also for agreement purposes (EC keys with equal x are excluded); kid \"\" on the producing side is DONT_CARE",
+    ),
     "C15": dict(
         category="exploration", design_ref="3/C15",
         technique="Hypothesis-generated headers with exactly one rule violation (or none) per case, rule-based three-valued oracle (must reject / must accept / don't care); consumption-side tokens validly signed or encrypted by the independent reference over exactly that header",
